@@ -29,6 +29,9 @@ CHECKS = {
  "C08": ("exploration", "history monitor against a value-semantics model (invariant at every step boundary) + race detector",
          "Every operation sequence up to length 4 on two table ids (complete DFS) and random histories of length 5..8 on three ids; after every step every live table is read back and compared with the value model; a mismatch is attributed to known finding K1 only if it equals the aliasing defect model. Counting clause on deep copies; 16 goroutines re-weight tables of distinct ids under -race.",
          "the receiver of OptimizeTable is not inspected again (documented in-place mutation); compromise values are C18's subject", "5 C08"),
+ "C09": ("exploration", "result-set monitor against rings known by construction and a sequential enumeration, under the race detector with GOMAXPROCS and scheduler perturbation; bounded-progress (allocation budget, all-blocked snapshot, resident-memory cap) monitor for termination",
+         "Designed pools (1..6 junctions, 1..3 alternatives per slot, flipped fragments, shuffled input, dead-end decoys incl. ones entering the ring) are ligated by CircularLigate and, rendered as linear/circular BsaI/BbsI/BtgZI carrier parts, by GoldenGate at GOMAXPROCS 1, 2, 16 with >= 20 calls each under -race; the returned set of molecules (own canonical form) must equal the designed set on every call, no molecule twice; arrival orders observed are counted. Termination pools (lollipops, shared junctions, random overhang graphs) must return within an allocation budget with every simple ring and only closed walks.",
+         "termination restated as bounded progress over allocated bytes and goroutine states, not wall-clock; schedules are sampled, not enumerated", "5 C09"),
  "C10": ("exploration", "reference-model monitor (modular-arithmetic Type IIS geometry) with complete rotation sweeps of small plasmids",
          "CutWithEnzyme / CutWithEnzymeByName (directional) on generated layouts (20..3000 bases, 0..6 sites of either orientation, BsaI, BbsI, BtgZI and custom non-palindromic enzymes, linear and circular, random letter case, sites whose cut would need bases beyond the ends of linear parts) compared as fragment multisets with an independent geometric model; every rotation of every generated circular plasmid of 20..300 bases is digested and compared with the same multiset.",
          "model cross-checked per case against a naive linear evaluator on a safely linearised rotation and against the generator's list of placed sites; layouts outside the property's stated restrictions are redrawn, not judged", "5 C10"),
